@@ -884,28 +884,32 @@ def rule_back(S):
 
 
 def rule_end0(S):
-    """R-END0: `return OK_SCAN_END` out of the stale-root handling of iscan_findnext."""
+    """R-END0: the stale-root handling of iscan_findnext at layer 0 - scan end only for the empty tree, and no retry
+    on the empty tree without progress."""
     facts = S.facts()
     S.rule('R-END0', 'iscan_findnext: a `return OK_SCAN_END` reached after re-reading the tree root pointer (stale saved '
-                     'root, layer 0) requires the version of the saved root to be established deleted on that path: a '
+                     'root, layer 0) requires the version of the saved root to be established deleted on that path (a '
                      'deleted root that is still the published root is the empty tree; a root that merely lost its root '
-                     'flag is in the middle of a root split and the tree is full of keys')
+                     'flag is in the middle of a root split); and with the saved root established deleted a retry edge '
+                     'after the re-read is taken only when the re-read pointer differs from the saved one (nobody is '
+                     'obliged to revive an empty tree: an unconditional retry never returns)')
     f = facts.one(Y + 'iscan_findnext')
     rvs = {v['id'] for n in f.all_nodes() if n['k'] == 'DeclStmt' for v in n.get('vars', [])
            if 'init' in v and 'node_version64_body' in v['type'] and
            any(is_call(x, cq=occ.STABLE) for x in f.walk(f.node(v['init'])))}
     sites = {}
+    retry_sites = {}
     seen = {'reload': 0}
 
     def step(ctx, nd, st):
-        reload_, deleted = st
+        reload_, deleted, changed = st
         if nd['k'] == 'DeclStmt' and any(v['id'] in rvs for v in nd.get('vars', [])):
-            return (False, '?')
+            return (False, '?', '?')
         if is_call(nd, cq=Y + 'tree_instance::load_root_ptr'):
             seen['reload'] += 1
-            return (True, deleted)
+            return (True, deleted, '?')
         if is_call(nd, cq=Y + 'find_border'):
-            return (False, '?')
+            return (False, '?', '?')
         if nd['k'] == 'ReturnStmt':
             if R.ret_const(f, nd) == Y + 'status::OK_SCAN_END' and reload_:
                 e = sites.setdefault('return OK_SCAN_END at ' + short_loc(nd), {'ok': True, 'loc': short_loc(nd), 'path': None})
@@ -916,28 +920,44 @@ def rule_end0(S):
         return st
 
     def branch(ctx, blk, idx, st):
-        reload_, deleted = st
+        reload_, deleted, changed = st
         t = blk.term
+        if t and t.get('k') == 'GotoStmt':
+            if reload_ and deleted == 'T':
+                e = retry_sites.setdefault('goto %s at %s' % (t.get('label'), short_loc(t)), {'ok': True, 'loc': short_loc(t), 'path': None})
+                if changed != 'T':
+                    e['ok'] = False
+                    e['path'] = e['path'] or ctx.witness()
+            return st
         if t and 'cond' in t and len(blk.succ) == 2:
             c = f.strip(f.node(t['cond']))
             flip = False
             while c is not None and c['k'] == 'UnaryOperator' and c.get('op') == '!':
                 flip = not flip
                 c = f.strip(f.ch(c)[0])
+            truth = (idx == 0) != flip
             if c is not None and c['k'] in CALL_KINDS and c.get('cn') == 'get_deleted' and \
                     root_var(f, call_recv(f, c)) in rvs:
-                truth = (idx == 0) != flip
-                return (reload_, 'T' if truth else 'F')
+                return (reload_, 'T' if truth else 'F', changed)
+            if reload_ and c is not None and c['k'] == 'BinaryOperator' and c.get('op') in ('==', '!=') and \
+                    all((f.strip(x, casts=True) or {}).get('ty', '').replace(' ', '').endswith('base_node*') for x in f.ch(c)):
+                differs = truth if c['op'] == '!=' else not truth
+                return (reload_, deleted, 'T' if differs else 'F')
         return st
 
-    Explorer(f, step, branch).run((False, '?'))
+    Explorer(f, step, branch).run((False, '?', '?'))
     S.require('R-END0', 'root-pointer reloads in iscan_findnext', seen['reload'], 1)
     for site, e in sorted(sites.items()):
         S.ob('R-END0', f.qname, site, e['ok'], 'only for a deleted (empty) root' if e['ok'] else
              'the scan is reported finished although the saved root is not established deleted: during a root split '
              '(root flag cleared, root pointer not yet replaced) the cursor stops with most of the interval undelivered',
              loc=e['loc'], path=e['path'])
-    S.require('R-END0', 'scan-end returns of the stale-root handling', len(sites), 1)
+    for site, e in sorted(retry_sites.items()):
+        S.ob('R-END0', f.qname, site + ' (saved root deleted)', e['ok'],
+             'retried only with a different root pointer' if e['ok'] else
+             'with the saved root deleted the cursor re-reads the root pointer and retries even when it is unchanged: on '
+             'an emptied tree (deleted root kept as the root) iscan_next never returns', loc=e['loc'], path=e['path'])
+    S.require('R-END0', 'scan-end returns / retries of the stale-root handling', len(sites) + len(retry_sites), 1)
 
 
 def rule_eq(S):
